@@ -33,7 +33,7 @@ CONSTANTS Peers,     \* e.g. {1, 2}
           Eps,       \* endpoints in the request alphabet: subset of {"sql","fragment","readyz","healthz","flight","both"}
           Fmts,      \* formats in the request alphabet (all four, except in the small kill-matrix runs)
           Mutant,    \* "none" = as built
-          Emit,      \* "none" (exhaustive check) | "states" (env histories, one per node state) | "walks" (simulation)
+          Emit,      \* "none" (exhaustive check) | "states" / "states_notick" (env histories, one per node state) | "walks"
           MaxDepth   \* walks: steps per walk
 
 VARIABLES load, draining, resolved, view, alive, pending, resp, hist
@@ -212,7 +212,7 @@ TickView(s, S) == [p \in Peers |-> IF p \in S THEN (IF s.alive[p] THEN "up" ELSE
 Guard(s, o) ==
   CASE o.a \in {"LoadDone", "LoadFail"} -> s.load = "loading"
     [] o.a = "Resolve" -> ~s.draining /\ (s.resolved => ResolvedView(s, o.S) # s.view)   \* re-resolving the same set changes nothing (C15)
-    [] o.a = "Tick" -> ~s.draining /\ (s.resolved => TickView(s, o.S) # s.view)
+    [] o.a = "Tick" -> ~s.draining /\ (s.resolved => TickView(s, o.S) # s.view) /\ Emit # "states_notick"
     [] o.a = "ProbeUp" -> ~s.draining /\ s.view[o.p] \notin {"absent", "up"} /\ s.alive[o.p]
     [] o.a = "ProbeDown" -> ~s.draining /\ s.view[o.p] \notin {"absent", "down"}
     [] o.a = "PeerDies" -> s.alive[o.p] /\ s.view[o.p] # "absent"
@@ -343,7 +343,8 @@ TypeOK == /\ load \in {"loading", "loaded", "failed"} /\ draining \in BOOLEAN /\
 \* ---- emission ----------------------------------------------------------------------------------
 SView == <<load, draining, resolved, view, alive>>
 \* (a) one environment history per reachable node state (Next = EnvNext, VIEW SView)
-EmitStates == Emit = "states" => EmitCase([h |-> hist, s |-> NodeState])
+\*     ("states_notick": the same without whole discovery passes, so single probes carry the histories)
+EmitStates == Emit \in {"states", "states_notick"} => EmitCase([h |-> hist, s |-> NodeState])
 \* (b) random walks: weighted single-successor steps
 RandomStep ==
   LET k == RandomElement(1..24)
